@@ -30,14 +30,16 @@ import (
 func init() { monitors["C19"] = monC19 }
 
 type proxyCase struct {
-	ID     int      `json:"id"`
-	Kind   string   `json:"kind"`                     // session | status
-	Conns  []string `json:"client_streams,omitempty"` // hex, one per sequential connection
-	Server []string `json:"server_streams,omitempty"` // hex
-	Chunk  int      `json:"chunk"`
-	GapUs  int      `json:"gap_us"`
-	Two    bool     `json:"two_concurrent,omitempty"`
-	Seed   uint64   `json:"seed"`
+	ID       int      `json:"id"`
+	Kind     string   `json:"kind"`                     // session | status
+	Conns    []string `json:"client_streams,omitempty"` // hex, one per sequential connection
+	Server   []string `json:"server_streams,omitempty"` // hex
+	Chunk    int      `json:"chunk"`
+	GapUs    int      `json:"gap_us"`
+	Two      bool     `json:"two_concurrent,omitempty"`
+	LogOff   bool     `json:"operator_switches_message_log_off,omitempty"`
+	NMEAOnly bool     `json:"nmea_sentence_per_chunk,omitempty"`
+	Seed     uint64   `json:"seed"`
 }
 
 // The fixed template of apps/proxy/reportfeed/reportpage.go, pinned here as the
@@ -450,6 +452,18 @@ func execC19Session(c *child.Ctx, k proxyCase, cj []byte) {
 		return
 	}
 	defer p.stop()
+	if k.LogOff {
+		// the operator switches the message log off through the documented control
+		// request before the traffic starts
+		for try := 0; try < 50; try++ {
+			if resp, err := http.Get(fmt.Sprintf("http://127.0.0.1:%d/status/loglevel/0", p.ctlPort)); err == nil {
+				resp.Body.Close()
+				c.Count("sessions_with_message_log_switched_off", 1)
+				break
+			}
+			time.Sleep(20 * time.Millisecond)
+		}
+	}
 	var allClient []byte
 	for ci := range k.Conns {
 		clientBytes := unhex(k.Conns[ci])
@@ -482,7 +496,22 @@ func execC19Session(c *child.Ctx, k proxyCase, cj []byte) {
 		clientSent, serverSent := make(chan struct{}), make(chan struct{})
 		go func() {
 			defer wg.Done()
-			writeChunks(conn, clientBytes, k.Chunk, k.GapUs, ref.NewRand(k.Seed+1))
+			if k.NMEAOnly && ci == 0 {
+				// one complete sentence per write, with a pause, so that the proxy reads each on its own
+				rest := clientBytes
+				for len(rest) > 0 {
+					n := bytes.Index(rest, []byte("\r\n"))
+					if n < 0 {
+						n = len(rest) - 2
+					}
+					conn.Write(rest[:n+2])
+					rest = rest[n+2:]
+					tick()
+					time.Sleep(4 * time.Millisecond)
+				}
+			} else {
+				writeChunks(conn, clientBytes, k.Chunk, k.GapUs, ref.NewRand(k.Seed+1))
+			}
 			close(clientSent)
 		}()
 		go func() {
@@ -701,7 +730,9 @@ func relayTwo(c *child.Ctx, p *proxyProc, k proxyCase, cj []byte) {
 func htmlBait(r *ref.SplitMix64) []byte {
 	texts := []string{"<script>alert(1)</script>", "</div><img src=x onerror=alert(1)>", "<b>bold</b>", "a<b>c", "<<<>>>"}
 	t := []byte(texts[r.Intn(len(texts))])
-	switch r.Intn(3) {
+	switch r.Intn(4) {
+	case 3: // a complete NMEA 0183 sentence with a correct checksum carrying the text
+		return nmeaSentence(string(t))
 	case 0: // as non-RTCM data
 		return t
 	case 1: // inside a valid frame of an undecodable type
@@ -714,6 +745,16 @@ func htmlBait(r *ref.SplitMix64) []byte {
 		}
 		return ref.Frame(p)
 	}
+}
+
+// nmeaSentence wraps text into a complete NMEA 0183 sentence with a correct checksum.
+func nmeaSentence(text string) []byte {
+	body := "GPTXT,01,01,02," + text
+	cs := byte(0)
+	for i := 0; i < len(body); i++ {
+		cs ^= body[i]
+	}
+	return []byte(fmt.Sprintf("$%s*%02X\r\n", body, cs))
 }
 
 func proxyStream(r *ref.SplitMix64, size int) []byte {
@@ -946,7 +987,7 @@ func monC19(c *child.Ctx, replay json.RawMessage) {
 	os.Stderr = saved
 	ns := c.Share(c.Pick(40, 1500))
 	for i := 0; i < ns; i++ {
-		k := proxyCase{Two: i%2 == 0, ID: c.Batch*10000 + i, Kind: "session", Chunk: []int{0, 1, 17, 512, 4096}[r.Intn(5)], GapUs: []int{0, 200, 2000}[r.Intn(3)], Seed: r.Uint64() >> 1}
+		k := proxyCase{Two: i%2 == 0, LogOff: i%4 == 3, ID: c.Batch*10000 + i, Kind: "session", Chunk: []int{0, 1, 17, 512, 4096}[r.Intn(5)], GapUs: []int{0, 200, 2000}[r.Intn(3)], Seed: r.Uint64() >> 1}
 		nconn := r.Range(1, 3)
 		size := 64000 / nconn
 		if k.Chunk == 1 {
@@ -955,7 +996,16 @@ func monC19(c *child.Ctx, replay json.RawMessage) {
 		for j := 0; j < nconn; j++ {
 			cs := proxyStream(r, r.Range(size/4, size))
 			ss := proxyStream(r, r.Range(10, size/2))
-			if i%3 == 1 {
+			if i%5 == 2 && j == 0 {
+				// text-only traffic: complete NMEA sentences, some with markup in the text
+				cs = nil
+				for n := r.Range(3, 12); n > 0; n-- {
+					txt := []string{"<script>alert(1)</script>", "ANTENNA OK", "</div><img src=x>", "a>b", "u-blox AG - www.u-blox.com"}[r.Intn(5)]
+					cs = append(cs, nmeaSentence(txt)...)
+				}
+				k.NMEAOnly = true
+			}
+			if i%3 == 1 && !k.NMEAOnly {
 				// streams that end exactly on a multiple of the proxy's 2048-byte read
 				// buffer, written in buffer-sized pieces and then silence
 				for len(ss) < 2048*3 {
